@@ -213,6 +213,7 @@ type analyzer struct {
 	sums    map[*ssa.Function]*summary
 	// cursor methods that are not readers themselves and are analysed as part of their callers (inlined views)
 	inlinedHelpers map[*ssa.Function]bool
+	peek           *ssa.Function // a non-consuming read primitive (same bounds-checked load as NEXT, no advance), if any
 	obs            map[string]*cob
 	order          []string
 	report         bool
@@ -497,6 +498,16 @@ func (a *analyzer) normalisePeeks(v *ssa.Function) {
 			return true
 		}
 		return false
+	}
+	// a non-consuming peek is a read followed by a step back
+	if a.peek != nil {
+		for _, b := range v.Blocks {
+			for _, in := range append([]ssa.Instruction(nil), b.Instrs...) {
+				if c, ok := in.(*ssa.Call); ok && c.Call.StaticCallee() == a.peek {
+					ssa.ExpandCall(c, a.next, a.back)
+				}
+			}
+		}
 	}
 	isDo := func(c *ssa.Call) bool { return c.Call.StaticCallee() == a.next }
 	isUndo := func(c *ssa.Call) bool { return c.Call.StaticCallee() == a.back }
@@ -1066,6 +1077,22 @@ func primitiveShape(f *ssa.Function, a *analyzer) string {
 			}
 		}
 	}
+	if calls == 0 && stores == 0 && f.Signature.Results().Len() == 1 && f.Signature.Params().Len() == 0 {
+		// no effect at all: the bounds-checked load input[position] of NEXT without the advance
+		if b, ok := f.Signature.Results().At(0).Type().Underlying().(*types.Basic); ok && b.Info()&types.IsInteger != 0 {
+			for _, blk := range f.Blocks {
+				for _, in := range blk.Instrs {
+					if ix, ok := in.(*ssa.Index); ok {
+						ls, ok1 := ix.X.(*ssa.UnOp)
+						li, ok2 := ix.Index.(*ssa.UnOp)
+						if ok1 && ok2 && isRecvField(ls.X, f, a.inIdx, a.cursorT) && isRecvField(li.X, f, a.posIdx, a.cursorT) {
+							return "PEEK"
+						}
+					}
+				}
+			}
+		}
+	}
 	if calls != 0 || stores != 1 {
 		return ""
 	}
@@ -1171,6 +1198,8 @@ func RunCursor(p *Prog, pkgpath string) *CursorResult {
 			a.next = f
 		case "BACK":
 			a.back = f
+		case "PEEK":
+			a.peek = f
 		default:
 			if f != nil && f.Blocks != nil {
 				a.methods = append(a.methods, f)
@@ -1225,7 +1254,7 @@ func RunCursor(p *Prog, pkgpath string) *CursorResult {
 		return res.Len() == 2 && isErrorType(res.At(1).Type())
 	}
 	keep := func(callee *ssa.Function) bool {
-		if callee == a.next || callee == a.back {
+		if callee == a.next || callee == a.back || callee == a.peek {
 			return true
 		}
 		if !a.isCursorMethod(callee) {
